@@ -136,6 +136,17 @@ def generate(rng, tier, focus):
         acts = [sub(0, ["conn", 0]), sub(1, second)]
         cases.append((scn(srcs=[src([f1, ok2, ok2], False)], conns=[["refcount", ["cold", 0]]], handles=2, script_=acts),
                       {"k": "shared-failed-then-newcomer", "want2": [str(x) for x in xs2]}))
+    # (j) a cold source that emits items and then FAILS, shared through replay() / ref_count(): the first subscriber (during whose
+    # subscribe the whole run happens) receives the items, then the error - and under replay() so does every later one
+    for _ in range(900 if thorough else 150):
+        xs = [rng.choice(ITEMS) for _ in range(rng.randrange(1, 4))]
+        en = rng.choice([("e", 1), ("e", 2), "c"])
+        s0 = scen.script(xs, en)
+        kind = rng.choice(["replay", "replay", "refcount"])
+        via = rng.choice([["conn", 0], ["conn", 0], op("map", [["id"]], ["conn", 0]), op("materialize", [], ["conn", 0])])
+        acts = [sub(0, via)] + ([sub(1, ["conn", 0])] if kind == "replay" else [])
+        cases.append((scn(srcs=[src([s0, s0], False)], conns=[[kind, ["cold", 0]]], handles=2, script_=acts),
+                      {"k": "shared-cold-failing", "want": [str(x) for x in xs], "end": "c" if en == "c" else "e", "mat": via[0] == "op" and via[1] == "materialize", "two": kind == "replay"}))
     # (i) a producer that goes on after its own error, subscribed directly or through operators that add no gate of their own:
     # the error is the subscriber's last event
     for _ in range(1200 if thorough else 200):
@@ -157,6 +168,16 @@ def judge_impl(cases, obs):
             terms = [x[2][0] for x in ob["log"] if x[0] == "t1" and x[2][0] != "n"]
             if got != info["want2"] or terms != ["c"]:
                 out0.append((i, "the subscriber that arrives after the shared source failed for an earlier one received items %s terminals %s; the source's next run emits %s then complete" % (got, terms, info["want2"])))
+        if info.get("k") == "shared-cold-failing":
+            for u in (["t0", "t1"] if info["two"] else ["t0"]):
+                if u == "t0" and info["mat"]:
+                    continue      # (materialized view: judged by the correspondence)
+                evs = [x[2] for x in ob["log"] if x[0] == u]
+                got = [str(x[1]) for x in evs if x[0] == "n"]
+                terms = [x[0] for x in evs if x[0] != "n"]
+                if got != info["want"] or terms != [info["end"]] or (evs and evs[-1][0] == "n"):
+                    out0.append((i, "subscriber %s of a shared cold source that emits %s and then ends with '%s' received %s" % (u, info["want"], info["end"], sx.dumps(evs))))
+                    break
         if info.get("k") == "emits-after-error":
             evs = [x[2] for x in ob["log"] if x[0] == "t0"]
             got = [str(x[1]) for x in evs if x[0] == "n"]
